@@ -4,6 +4,7 @@ import (
 	"fmt"
 	"sort"
 	"strings"
+	"sync"
 	"time"
 
 	"github.com/codelaboratoryltd/bng/pkg/pool"
@@ -25,6 +26,7 @@ type msys struct {
 	members map[string]bool // set semantics of AddPeer/RemovePeer (self is always a member)
 	ids     []string
 	viols   []explore.Viol
+	bk      sync.Mutex // harness bookkeeping only (free-running -race pass runs Apply on real goroutines)
 }
 
 func membershipIDs() []string {
@@ -59,10 +61,14 @@ func (s *msys) Apply(op string) string {
 	switch f[0] {
 	case "AddPeer":
 		s.p.AddPeer(f[1])
+		s.bk.Lock()
 		s.members[f[1]] = true
+		s.bk.Unlock()
 	case "RemovePeer":
 		s.p.RemovePeer(f[1])
+		s.bk.Lock()
 		delete(s.members, f[1])
+		s.bk.Unlock()
 	default:
 		panic("unknown op " + op)
 	}
